@@ -20,12 +20,11 @@ def cfOfJson (j : Json) : R (CF Poly) := do
   let unit ← optStrOfJson j "unit"
   pure { mesh, nvdim, data := NDA.ofList mesh.n cells [], vdims, vmap, unit }
 
-/-- collect like monomials (exponents reduced mod `ns`): list of `[flat exponent index (C
-order), re, im]` with a non-zero coefficient -/
+/-- like monomials collected, exponents reduced mod `ns` (`Poly.dense`, a model function whose
+evaluation is proved equal to the value of `p`): printed as the list of `[flat exponent index
+(C order), re, im]` with a non-zero coefficient -/
 def denseJ (ns : List Nat) (p : Poly) : Json :=
-  let acc := p.terms.foldl (init := Array.replicate (natProd ns) ((0 : Rat), (0 : Rat))) fun acc t =>
-    let k := flatC ns (tab ns.length fun a => t.1.getD a 0 % ns.getD a 1)
-    acc.modify k fun c => (c.1 + t.2.1, c.2 + t.2.2)
+  let acc := (Poly.dense ns p).toArray
   let out := (List.range acc.size).filterMap fun k =>
     let c := acc.getD k (0, 0)
     if c.1 = 0 ∧ c.2 = 0 then none
